@@ -9,8 +9,11 @@
 (*  obs.cid    which chain of ChainTable (module UtxoScanChains, generated *)
 (*             per run from the same description the driver builds its     *)
 (*             real blocks from) the environment serves; index = height    *)
-(*             1..H; a block is a sequence of transactions [id, nout, ins] *)
-(*             where ins is a sequence of outpoints <<txid, index>>        *)
+(*             1..H; a block is a sequence of transactions [id, nout, ins, *)
+(*             scr] where ins is a sequence of outpoints <<txid, index>>   *)
+(*             and scr the script id of every output (equal ids = address  *)
+(*             re-use; used by the model to predict filter matches, never  *)
+(*             by a clause: the fate of an outpoint does not depend on it) *)
 (*  obs.best   best height the environment currently reports (blocks above *)
 (*             it have not arrived yet)                                    *)
 (*  obs.pc     where the batch manager goroutine is blocked (PC_* below):  *)
